@@ -122,6 +122,12 @@ func stressAtomics(until time.Time) {
 		flag.RemoveFlag(bit)
 		loom.AddIf64(&counter, 1, func(old int64) bool { return old < 10 })
 		loom.AddIf64(&counter, -1, func(old int64) bool { return old > 0 })
+		// degenerate arguments the API tolerates: a zero delta ("just ask the predicate"), the empty mask
+		loom.AddIf64(&counter, 0, func(old int64) bool { return old >= 0 })
+		flag.AddFlag(0)
+		flag.RemoveFlag(0)
+		flag.HasFlag(0)
+		m.IsLocked()
 		if i%2 == 0 {
 			if m.TryLock() {
 				if atomic.AddInt32(&inside, 1) != 1 {
